@@ -14,18 +14,40 @@ from harness import parser_common as pc
 ID = "C03"
 DESIGN_REF = "6/C03"
 LEAN_MODULES = ["Clikit.Props.C03"]
-REQUIRED_THEOREMS = []
+REQUIRED_THEOREMS = ["Clikit.Props.C03." + n for n in (
+    "lead_eq_takeWhile", "tail_never_names", "options_after_path", "walk_none_iff", "walk_deepest", "alias_invariant",
+    "resolve_unknown_first", "resolve_no_lead", "resolve_deepest", "pickDefault_first_parsable",
+    "pickDefault_none_parsable")]
 TECHNIQUE = ("Lean 4 theorems on a model of DefaultResolver/CommandCollection (longest-prefix walk against a declarative "
              "path relation, alias invariance, options/tail never name commands) + differential correspondence on "
              "generated trees x lines, with a declarative oracle")
-LEVEL_TEXT = ""
-LEVEL_NOTE = ""
+LEVEL_TEXT = ("Proved in Lean for EVERY command tree (any depth/fan-out) and token list, on a model of DefaultResolver / "
+              "CommandCollection / ResolveResult: the leading tokens are the longest prefix of name-like tokens (nothing after "
+              "`--`, nothing after the first option); the walk reaches the command named by the LONGEST prefix of the leading "
+              "tokens that is a path of commands (stated against a declarative path relation written independently of the "
+              "walk, with maximality), finds nothing iff the first token names no command (then: undefined-command error "
+              "without any parse); respellings with the same lookups (aliases) never change the walk; the default "
+              "(sub-)command rule (first parsable, else first) and the three shapes of resolve. The model is tied to the code "
+              "by differential runs on generated trees x lines, the tree (incl. each command's flattened format) being read "
+              "from the real Command objects.")
+LEVEL_NOTE = ("Trusted: Lean kernel + standard axioms; the hand-written resolver model and the parser model it calls (modelled, "
+              "not verified; compared with the real resolver on every generated case); harness/app_common.py. Sibling "
+              "commands with the SAME NAME (dict overwrite in CommandCollection) are modelled but not generated (the "
+              "application rejects them at top level). The selection among default sub-commands depends on parsability, so "
+              "'adding options never changes the selection' is proved for the walk (the path), not for that choice.")
 RULE = ("generated trees (depth<=3, fan-out<=3, aliases incl. colliding, default/anonymous/hidden/disabled, lenient) x 6 "
         "lines each (full/partial/wrong paths spelled with names or aliases, then arguments, options, optional -- tail "
         "containing command names); non-trivial = the line has >= 1 leading token or the app has a default command; "
         "distinct = (tree, tokens)")
-TRUSTED_BASE = []
-ASSUMPTIONS = []
+TRUSTED_BASE = [
+    "Lean 4.33 kernel; axioms within propext, Classical.choice, Quot.sound (audited per theorem on every run)",
+    "lean/Clikit/Model/Resolver.lean + Model/Parser.lean: hand-written models (modelled, not verified; tied by the correspondence)",
+    "harness/app_common.py, harness/props/c03.py: tree/line generators, extraction of the tree from the real Command objects, declarative oracle",
+]
+ASSUMPTIONS = [
+    "sibling commands have distinct names in generated trees (aliases may collide with names and with each other)",
+    "a bare ApplicationConfig with the DefaultResolver (no help/version listeners: those are C09's subject)",
+]
 BATCH = 1500
 
 WORDS = ["x", "zzz", "7", "abc"]
